@@ -256,8 +256,9 @@ class _ReusablePoolExecutor(ProcessPoolExecutor):
 
             with self._processes_management_lock:
                 self._adjust_process_count()
-            processes = list(self._processes.values())
-            while not all(p.is_alive() for p in processes):
+            while not self._flags.broken and not all(
+                p.is_alive() for p in list(self._processes.values())
+            ):
                 time.sleep(1e-3)
 
     def _wait_job_completion(self):
